@@ -300,7 +300,7 @@ class Interp:
         if ty.startswith('std::boxed::Box<arc::ArcInner<'):
             b = st.load(ptr)
             data = st.load(Ptr(b.root, b.path + (1,)))
-            if data is not MOVED: st.ev(kind='DESTROY', loc=('data', b.root[1]))
+            if not (isinstance(data, Opaque) and data.what == 'moved-out'): st.ev(kind='DESTROY', loc=('data', b.root[1]))
             st.ev(kind='FREE', loc=('blk', b.root[1]))
             return cont(st)
         if ty.startswith('std::result::Result<') or ty.startswith('std::option::Option<'):
